@@ -159,6 +159,25 @@ def run(chk, prop):
         del temp
         events.append(ev)
         chk.count("short_lived_schema_pairs")
+    # ... and the tightest form of it: schemas of one shape that differ in one parameter, declared
+    # inline one right after the other (an object freed a moment ago gives its address to the next)
+    from . import deep as _deep
+
+    def _str(**kw):
+        return dict(_deep.STR0, **kw)
+    VS = _deep.VStr
+    family = [(_str(alphabet=[VS([97 + k, 98 + k, 99 + k])]), VS([97 + j, 98 + j])) for k in range(6) for j in range(6)] + \
+             [(_str(substr=[VS([97 + k])]), VS([97 + j, 120])) for k in range(4) for j in range(4)] + \
+             [({"t": "list", "type": [_str(alphabet=[VS([97 + k, 98 + k])])], "elems": [], "len": [], "min_len": [], "max_len": []},
+               {"k": "list", "items": [VS([97 + j]), VS([98 + j])]}) for k in range(4) for j in range(4)] + \
+             [({"t": "int", "value": [], "min": [{"k": "int", "n": k}], "max": []}, {"k": "int", "n": j}) for k in range(5) for j in range(5)]
+    for rounds in range(3 if quick else 12):
+        for s_abs, v_abs in family:
+            v_real = am.g_value(v_abs)
+            ev = valgen.observe_validate(am.g_schema(s_abs), v_real)
+            ev.update({"id": len(events) + 1, "s": s_abs, "v": v_abs, "srepr": "", "vrepr": safe_repr(v_real)[:200]})
+            events.append(ev)
+            chk.count("inline_schema_pairs")
     # code -> spec, beyond the exhaustive universe: random schemas nested deeper, probed
     # around the values the real generator produces for them under the constant tapes
     from . import deep
